@@ -35,9 +35,11 @@ Definition run_c19 (w : wire) : wire :=
                             ret {| c_name := a; c_hash := negb (h =? 0); c_num := m; c_rest := r; c_rest_hash := negb (rh =? 0) |}));
                         ret (t, ds, st)) w'
                  (fun '(t, ds, st) => [if load_cond_strict (match lex_cond t with Some _ => true | None => false end) st ds then 0 else 1])
-  | 8 :: w' => run_dec (do nl <- getN; getMany nl (do e <- getZ; do k <- getN; do d <- getZ; do a <- getZ;
-                           ret {| s_empty := negb (e =? 0); s_ntok := k; s_dot := negb (d =? 0); s_name := a |})) w'
-                 (fun ls => match sensors_load ls with SOk n k c => [0; zn n; zn k; zn c] | SErr => [1] | SUnmodelled => [99] end)
+  | 8 :: w' => run_dec (do nl <- getN; getMany nl (do e <- getZ; do k <- getN; do d <- getZ; do a <- getZ; do i <- getZ;
+                           ret {| s_empty := negb (e =? 0); s_ntok := k; s_dot := negb (d =? 0); s_name := a; s_idx := i |})) w'
+                 (fun ls => match sensors_load ls with
+                            | SOk n k c rows => [0; zn n; zn k; zn c] ++ flat_map (fun r => [fst r; zn (snd r)]) rows
+                            | SErr => [1] | SUnmodelled => [99] end)
   | 3 :: w' => run_dec getRstream w' (fun s => outMesh (read_bnd s))
   | 4 :: w' => run_dec (do n <- getN; getZs n) w' (fun bs => outMeshF (read_mesh bs))
   | _ => [-1]
